@@ -134,3 +134,12 @@ Example c09_example_early_reject :
   /\ step s (CSortPre (U 22) PsVec [U 99]) = (s, RReject EUndefinedSort)
   /\ step s (CSort (U 20)) = (s, RReject ESortAlreadyBound).
 Proof. vm_compute. repeat split; reflexivity. Qed.
+
+(** the third F2 witness replayed: a second `let` of a global with another sort is rejected by
+    check_shadowing, `global_sorts` keeps the new sort, and a later query on the global panics
+    (lib.rs:2776 `query_table(..).unwrap()`) — found by the correspondence cases (seed 2) *)
+Example c09_example_stale_global_panics :
+  snd (run init [CDatatype (U 20) [(U 21, [])]; CAct (ALet (G 16) (ECall (U 21) []));
+                 CAct (ALet (G 16) EInt); CCheck [FEq (EVar (G 16)) (EVar (G 16))]])
+  = [RAccept; RAccept; RReject EShadowing; RPanic].
+Proof. vm_compute. reflexivity. Qed.
